@@ -248,6 +248,27 @@ def make_worker(tier):
                     if not isinstance(ts, dict) or multiset(ts) != multiset(tree):
                         S.add("outcomes", "string-entry-differs")
                         S.violation("C20.split", "C20.split/string-entry-point-differs-from-file/%s" % ("rejected" if not isinstance(ts, dict) else "declarations"), inp, expected="the tree get_fcp gives", actual=ts if not isinstance(ts, dict) else multiset(ts))
+                    if label["topo"] == "star" and label["paths"] == "flat" and "m1.fcp" in texts and "mod m1;" in texts["main.fcp"]:
+                        # the text of a string has no place on disk: a module that happens to be called main.fcp is a module like any other
+                        S.count("executions")
+                        sd = os.path.join(_worker_dir(), "strmain")
+                        os.makedirs(sd, exist_ok=True)
+                        open(os.path.join(sd, "main.fcp"), "w").write(texts["m1.fcp"])
+                        if "m2.fcp" in texts:
+                            open(os.path.join(sd, "m2.fcp"), "w").write(texts["m2.fcp"])
+                        stext = texts["main.fcp"].replace("mod m1;", "mod main;")
+                        os.chdir(sd)
+                        try:
+                            try:
+                                rs = get_fcp_from_string(stext, Logger({}))
+                                ts = rs.unwrap().to_dict() if rs.is_ok() else "Err: " + "; ".join(str(m) for m, _n, _w in rs.err().msg)[:300]
+                            except Exception as e:  # noqa
+                                ts = "exception %s" % type(e).__name__
+                        finally:
+                            os.chdir(cwd)
+                        if not isinstance(ts, dict) or multiset(ts) != multiset(tree):
+                            S.add("outcomes", "string-entry-module-called-main-differs")
+                            S.violation("C20.split", "C20.split/string-entry-point-importing-a-module-called-main/%s" % ("rejected" if not isinstance(ts, dict) else "declarations"), dict(inp, text=stext, module_main=texts["m1.fcp"]), expected="the tree get_fcp gives for the same split with the module called m1", actual=ts if not isinstance(ts, dict) else multiset(ts))
                 ms, mt = multiset(single), multiset(tree)
                 bad = [c for c in ms if ms[c] != mt[c]]
                 if bad:
